@@ -106,3 +106,42 @@ Proof.
   split; [exact xm_inv|]. split; [unfold xU; simpl; auto 10|]. split; [discriminate|].
   vm_compute. split; [reflexivity|]. split; [reflexivity|discriminate].
 Qed.
+
+(** The hypothesis of the invariant theorem (good_history) is satisfiable by a history with a side
+    branch and a reorganisation; the refutation witness above violates it (its third arrival pulls
+    the parked B3 in and ends in an error). *)
+From Verif Require Import ChainDB.Longest.
+Example good_history_example :
+  good_history xapply 100 true xU (init_node xg) [(0, xA1); (0, xB1); (0, xB2)] /\
+  hash_field (best (history xapply true true 100 (init_node xg) [(0, xA1); (0, xB1); (0, xB2)])) = 7.
+Proof.
+  split; [|vm_compute; reflexivity].
+  simpl. unfold good_arrival. simpl fst. simpl snd.
+  split; [split; [vm_compute; discriminate|split; [unfold xU; simpl; auto 10|split; [left; reflexivity|vm_compute; intros; discriminate]]]|].
+  split; [split; [vm_compute; discriminate|split; [unfold xU; simpl; auto 10|split; [left; reflexivity|vm_compute; intros; discriminate]]]|].
+  split; [split; [vm_compute; discriminate|split; [unfold xU; simpl; auto 10|split; [left; reflexivity|vm_compute; intros; discriminate]]]|].
+  exact I.
+Qed.
+
+(** Partial flush INSIDE the bulk of RecoverChainMapping is not recoverable: the bulk first deletes
+    the height entries of the new branch (from the top down) and writes Latest last; if only a
+    prefix reaches the disk, Latest still names the new height whose mapping is gone and
+    loadChainData fails (ErrorLoadBestBlock).  Witness: G-A1, side B1, B2 (reorg), crash after the
+    height bulk of swapChainMapping, restart, crash after the first operation of the recovery bulk. *)
+Theorem recover_chain_mapping_partial_flush_refuted :
+  exists (apply : sroot -> block -> option sroot) (n : node) (b : block),
+    let n' := fst (add_block apply true true 100 n b) in
+    let us := units_since n n' in
+    let c3 := crash (length us - 1) (dur n) us in
+    match restart true c3 with
+    | Some (StartOk r) =>
+        hash_field (best r) = hash_field b /\
+        match rev (jlog r) with
+        | u :: _ => u_kind u = UBulk /\ restart true (apply_ops c3 (firstn 1 (u_ops u))) = None
+        | [] => False
+        end
+    | _ => False
+    end.
+Proof.
+  exists xapply, xm, xB2. vm_compute. split; [reflexivity|]. split; reflexivity.
+Qed.
